@@ -53,8 +53,8 @@ SHAPES = [
      '(a if k else d)', [], ['[1], {}, True', '[None], {}, True', '[], {1: None}, False', '[], {1: 1}, False']),
     # children all ignorable: the rejection (wrong length / implicit Counter value hint) is not attributable to a child
     ('TupleFixed_Any_object', 'Tuple[Any, object]', [('a', LOI)], 'tuple(a)', ['len(a) <= 3'], ['[1, 2]', '[1]', '[]', '[1, None, 2]']),
-    ('List_TupleFixed_Any', 'List[Tuple[Any, Any]]', [('a', LOI), ('b', LOI)], '[tuple(a), tuple(b)]', ['len(a) <= 3', 'len(b) <= 3'],
-     ['[1, 2], [1, 2]', '[1], [1, 2]', '[1, 2], []']),
+    ('List_TupleFixed_Any', 'List[Tuple[Any, Any]]', [('n1', 'int'), ('n2', 'int')],
+     '[((), (1,), (1, 2), (1, 2, 3))[n1], ((), (1,), (1, 2), (1, 2, 3))[n2]]', ['0 <= n1 <= 3', '0 <= n2 <= 3'], ['2, 2', '1, 2', '2, 0']),
     ('Union_int_TupleFixed_object', 'Union[int, Tuple[object, object]]', [('a', LOI), ('k', 'bool')], '(tuple(a) if k else 3)', ['len(a) <= 3'],
      ['[1, 2], True', '[1], True', '[], False']),
     ('TupleEmpty', 'Tuple[()]', [('a', LOI)], 'tuple(a)', ['len(a) <= 2'], ['[]', '[1]']),
